@@ -588,6 +588,24 @@ func (e *env) runEnc(id, tier string) {
 			}
 		}
 		_ = os.WriteFile(filepath.Join(root, target), orig, 0o644)
+		// … the same between two LONG keys with a long common beginning (the index key of a long URL and the keys of
+		// its responses differ only at the very end): the whole key binds the file to its entry, not a prefix of it
+		{
+			common := "http://example.com/" + strings.Repeat("a", 300+e.r.Intn(600))
+			ka, kb := common+"#1", common+"#2"
+			fa, fb := e.fileOfLongKey(conn, ka, []byte("value of the first long key")), e.fileOfLongKey(conn, kb, []byte("value of the second long key"))
+			if fa != "" && fb != "" && fa != fb {
+				ba, _ := os.ReadFile(filepath.Join(root, fa))
+				total++
+				_ = os.WriteFile(filepath.Join(root, fb), ba, 0o644)
+				if got, err := conn.Get(kb); err == nil {
+					accepted++
+					e.emit("S\tTAMPER\taccepted\t%d\t%s", len(ba), valRepr(got))
+				}
+			}
+			_ = conn.Delete(ka)
+			_ = conn.Delete(kb)
+		}
 		// large values: truncation at every length of a structural kind (block, segment and record
 		// boundaries of any power-of-two size with the usual nonce/tag overheads), a random sample of
 		// other lengths, and byte flips near those boundaries
@@ -723,6 +741,20 @@ func (e *env) runEnc(id, tier string) {
 		}
 	}
 	e.emit("E\t%s", id)
+}
+
+// fileOfLongKey: Set the key and return the (relative) file that appeared for it
+func (e *env) fileOfLongKey(conn driver.Conn, k string, v []byte) string {
+	pre := e.readAllFiles()
+	if conn.Set(k, v) != nil {
+		return ""
+	}
+	for f := range e.readAllFiles() {
+		if _, ok := pre[f]; !ok {
+			return f
+		}
+	}
+	return ""
 }
 
 func fileIsFor(root, f string, before, after map[string][]byte, key string) bool {
@@ -963,6 +995,9 @@ func (e *env) runConc(id string, enc bool, dur time.Duration) {
 		wg.Add(1)
 		go func() {
 			defer wg.Done()
+			// what a Get returned belongs to the caller: it is kept across the next Get and must still be the value it was
+			var held []byte
+			heldTok := ""
 			for n := 0; n < 500; n++ {
 				select {
 				case <-stop:
@@ -976,6 +1011,14 @@ func (e *env) runConc(id string, enc bool, dur time.Duration) {
 				tok := "-"
 				if err == nil {
 					tok = tokOf(b)
+				}
+				if held != nil && tokOf(held) != heldTok {
+					mu.Lock()
+					lines = append(lines, "S\tHELD\tchanged\t"+hx("reg"))
+					mu.Unlock()
+				}
+				if err == nil && !strings.HasPrefix(tok, "torn") {
+					held, heldTok = b, tok
 				}
 				mu.Lock()
 				lines = append(lines, fmt.Sprintf("C\tR\t%s\t%d\t%d\t%s", tok, t0, t1, res))
